@@ -28,6 +28,9 @@ func init() {
 
 func runC04(c *eng.Ctx) {
 	p := c.P
+	downSamplingEmitsEverySlot(c)
+	rollupMarkOnlyForAFlushedTable(c)
+	decodedRecordOwnsItsStrings(c)
 	compactionOutputClaimedUntilInstalled(c)
 
 	// ---- 1. registration rides the flush commit ---------------------------------------------------------------------------
